@@ -400,6 +400,22 @@ Proof.
     eapply sop_effs_ok; eauto. apply root_ok.
 Qed.
 
+(* slice-to-slice copies: one exact effect on the destination region *)
+Lemma copy_effs_ok rs ri ch rj doff dlen : wf rs -> effs_ok rs (o_effs (run_copy rs ri ch rj doff dlen)).
+Proof.
+  intros Hwf. assert (Hnil : effs_ok rs []) by constructor. unfold run_copy.
+  destruct (nth_error rs ri) as [r|] eqn:Hi; [|exact Hnil].
+  destruct (nth_error rs rj) as [r2|] eqn:Hj; [|exact Hnil].
+  destruct (derive_chain (root r) ch) as [a|]; [|exact Hnil].
+  destruct (d_sub (root r2) doff dlen KSlice) as [d|] eqn:Hd; [|exact Hnil].
+  pose proof (region_ok_of_wf rs rj r2 Hwf Hj) as (Hps & Hsz & Hlen).
+  pose proof (d_sub_inv r2 (root r2) doff dlen KSlice d Hsz (root_inv r2) Hd) as Hinv.
+  assert (Hone : effs_ok rs [weff rj d 0 (N.min (a_len a) (a_len d))]).
+  { constructor; [|constructor]. exists r2. split; [exact Hj|]. apply weff_exact; [exact Hsz|exact Hinv|lia]. }
+  destruct (a_kind a); try exact Hnil;
+    (destruct (Nat.eqb ri rj && ranges_overlap (a_off a) (a_len a) (a_off d) (a_len d)); [exact Hnil|exact Hone]).
+Qed.
+
 Definition is_reset (s : step) : bool :=
   match s with SReset _ | SResetRange _ _ _ => true | _ => false end.
 
@@ -408,13 +424,14 @@ Lemma step_effs hm rs s rs' out : wf rs -> is_reset s = false -> run_step hm rs 
   rs' = apply_effs rs (o_effs out) /\ effs_ok rs (o_effs out).
 Proof.
   intros Hwf Hr H. assert (Hnil : effs_ok rs []) by constructor.
-  destruct s as [ri ch o|o| |]; try discriminate; cbn [run_step] in H.
+  destruct s as [ri ch o|o| | |ri ch rj doff dlen]; try discriminate; cbn [run_step] in H.
   - destruct (nth_error rs ri) as [r|] eqn:Hn; [|inversion H; subst; split; [reflexivity|exact Hnil]].
     destruct (derive_chain (root r) ch) as [a|] eqn:Hc; [|inversion H; subst; split; [reflexivity|exact Hnil]].
     inversion H; subst. split; [reflexivity|].
     pose proof (region_ok_of_wf rs ri r Hwf Hn) as (Hps & Hsz & Hlen).
     eapply sop_effs_ok; eauto. eapply chain_ok; eauto. apply root_ok.
   - inversion H; subst. split; [reflexivity|]. apply gop_effs_ok. exact Hwf.
+  - inversion H; subst. split; [reflexivity|]. apply copy_effs_ok. exact Hwf.
 Qed.
 
 Lemma wf_geo rs rs' : map geo rs = map geo rs' -> wf rs -> wf rs'.
@@ -485,7 +502,12 @@ Lemma mlen_is_wn_lemma hm rs s rs' out : wf rs -> is_reset s = false -> is_fd_er
   run_step hm rs s = (rs', out) -> forall e, In e (o_effs out) -> e_mlen e = e_wn e.
 Proof.
   intros Hwf Hr Hf H e Hin.
-  destruct s as [ri ch o|o| |]; try discriminate; cbn [run_step] in H.
+  destruct s as [ri ch o|o| | |ri ch rj doff dlen]; try discriminate; cbn [run_step] in H.
+  3:{ inversion H; subst; clear H. unfold run_copy in Hin.
+      destruct (nth_error rs ri); [|destruct Hin]. destruct (nth_error rs rj); [|destruct Hin].
+      destruct (derive_chain _ ch) as [a|]; [|destruct Hin]. destruct (d_sub _ doff dlen KSlice) as [d|]; [|destruct Hin].
+      destruct (a_kind a); try (destruct Hin; fail);
+        (destruct (Nat.eqb ri rj && _); [destruct Hin|destruct Hin as [<-|[]]; reflexivity]). }
   - destruct (nth_error rs ri) as [r|]; [|inversion H; subst; destruct Hin].
     destruct (derive_chain (root r) ch) as [a|]; [|inversion H; subst; destruct Hin].
     inversion H; subst; clear H. unfold run_sop in Hin.
